@@ -19,6 +19,32 @@
  *   lndet: c gamma_{n+2} sum|log|pivot||
  * Measured with c = 1 (design probes): worst ratio 0.98 (LLT reconstruction) - do not tighten.
  * Residuals are accumulated in __float128 (products of two doubles are exact there), bounds in long double.
+ *
+ * UNDERFLOW TERMS (every bound above is the no-underflow result; the "xscale" classes scale rows/columns by 2^+-1000).
+ * Model with gradual underflow (Higham, ASNA 2nd ed. (2.8)): fl(a*b) = ab(1+d) + e, fl(a/b) = (a/b)(1+d) + e, |d| <= u,
+ * |e| <= eta = 2^-1074 (round to nearest gives eta/2; eta is used), fl(a+-b) = (a+-b)(1+d) exactly as before (a sum that
+ * lands in the subnormal range is exact).  Carrying the e's through the usual derivations (each e is multiplied by at
+ * most (1+gamma)^2, absorbed in ETA_Q) adds to the c = 1 bound of each clause:
+ *   PLU entry (r,c):  a_rc = sum_{k<min(r,c)} fl(l_rk u_kc) ... ; min(r,c) products, and for r > c the division
+ *        l_rc = fl(t/u_cc) = (t/u_cc)(1+d) + e  <=>  t = (l_rc u_cc - e u_cc)/(1+d):
+ *        E(r,c) = eta (min(r,c) + [r>c] |u_cc|)
+ *        (the error of a stored multiplier only enters entry (r,c) itself because the residual uses the STORED l).
+ *   LDL entry (r,c), c <= r: the library forms fl(fl(l_ri l_ci) d_i) = l_ri l_ci d_i (1+th_2) + e1 d_i (1+d) + e2, then
+ *        divides by d_c:  E(r,c) = eta (sum_{i<c} (|d_i| + 1) + [r>c] |d_c|)
+ *        (note the |d_i| amplification: it belongs to this operation order and is part of the a-priori bound).
+ *   LLT entry (r,c), c <= r: c products, division by l_cc for r > c, sqrt of a normal pivot does not underflow:
+ *        E(r,c) = eta (c + [r>c] |l_cc|)
+ *   triangular sweeps, row r:  unit lower (PLU, LDL)      e1_r = eta r
+ *                              lower with division (LLT)   e1_r = eta (r + |l_rr|)
+ *                              upper U / L^T               e2_r = eta (n-1-r + |u_rr| resp. |l_rr|)
+ *                              D L^T (x_r = y_r/d_r - sum) e2_r = eta |d_r| (n-r)     (one division, n-1-r products, all times d_r)
+ *   solve / inverse column: (L+dL) y = Pb + e1', (M+dM) x = y + e2', PA = LM + E'  =>
+ *        Pb - PAx = [(L+dL)(M+dM) - LM - E'] x - (L+dL) e2' - e1'   so row r of the c = 1 bound gains
+ *        UF_r = sum_c E(r,c)|x_c| + sum_{k<=r} |L_rk| e2_k + e1_r        (L_rr = 1 for PLU/LDL, l_rr for LLT).
+ * All of it is multiplied by the same safety factor c = 4 as the rounding part.  Overflow: a non-finite factor or
+ * solution on an xscale class (or on plain LDL^T of an indefinite matrix) is counted and skipped, never flagged; the
+ * library never turns an inf back into a finite number (inf stays in the factor storage / the solution vector).
+ * Measured on the xscale classes with c = 1 (seeds 1..5, thorough): see the *-xscale-*-ratio maxima in evidence.
  */
 #define VF_PROP "C08"
 #include "vf_common.h"
@@ -35,6 +61,7 @@ typedef long double ld_t;
 #define GUARD 8u
 #define CSAFE 4.0
 #define U_RO 0x1p-53L
+#define ETA_Q (0x1p-1074L * (1 + 0x1p-30L)) /* eta times the (1+gamma_k)^2 <= 1 + 2^-30 factors (k <= 3*48+1) */
 
 static ld_t gam(unsigned k)
 {
@@ -53,6 +80,7 @@ enum
     /* general (PLU) */
     G_RANDOM, G_SMALLINT, G_ROWSCALE, G_COLSCALE, G_HILBERT, G_NEARDEP, G_EXCH_EVERY, G_EXCH_LAST,
     G_PERM, G_TRIU, G_TRIL, G_DIAG, G_SPD, G_SYMINDEF,
+    G_X_ROW, G_X_COL, G_X_BOTH, G_X_GLOBAL, G_X_BLOCK, G_X_EXACT,
     G_F_ZEROCOL, G_F_ZEROROW, G_F_ZEROMAT, G_F_DUPROW, G_F_SCALEDDUP,
     G_NCLS
 };
@@ -60,33 +88,45 @@ static char const *const g_name[] = {
     "random-dense", "small-integer", "row-scaled-2^k", "col-scaled-2^k", "hilbert-like", "nearly-dependent-rows",
     "exchange-every-step", "exchange-last-step-only", "permutation-matrix", "upper-triangular", "lower-triangular",
     "diagonal", "spd-BtB+dI", "symmetric-indefinite",
+    "xscale-rows-2^+-960", "xscale-cols-2^+-960", "xscale-rows-and-cols-2^+-480", "xscale-global-near-overflow-or-underflow",
+    "xscale-huge-rows-over-tiny-columns", "xscale-exact-perm-diag-triu",
     "FAIL:zero-column", "FAIL:zero-row", "FAIL:zero-matrix", "FAIL:duplicated-rows", "FAIL:2^k-multiple-row"};
 enum
 {
     /* symmetric (LDL) */
     S_SPD, S_SPD_INT, S_INDEF, S_INT_LDL, S_SCALED, S_HILBERT, S_DIAG, S_NEARDEP, S_TRIDIAG,
+    S_X_SPD, S_X_INDEF, S_X_GLOBAL, S_X_DIAG,
     S_F_ZERO_D, S_F_ZEROMAT, S_F_LEAD0,
     S_NCLS
 };
 static char const *const s_name[] = {
     "spd-BtB+dI", "spd-integer-L0L0t", "symmetric-indefinite", "integer-L0D0L0t", "sym-scaled-2^k", "hilbert",
     "diagonal", "sym-nearly-dependent", "tridiagonal",
+    "xscale-D*spd*D-2^+-480", "xscale-D*indefinite*D-2^+-480", "xscale-global-near-overflow-or-underflow", "xscale-diagonal",
     "FAIL:integer-L0D0L0t-with-zero-d", "FAIL:zero-matrix", "FAIL:zero-leading-entry"};
 enum
 {
     /* symmetric positive definite (LLT) */
     C_SPD, C_SPD_INT, C_SCALED, C_HILBERT, C_DIAG, C_TRIDIAG, C_NEARSING,
+    C_X_SPD, C_X_GLOBAL, C_X_DIAG,
     C_F_LEAD, C_F_LOWERED_LAST, C_F_LOWERED_ANY, C_F_ZEROMAT,
     C_NCLS
 };
 static char const *const c_name[] = {
     "spd-BtB+dI", "spd-integer-L0L0t", "spd-scaled-2^k", "hilbert", "positive-diagonal", "spd-tridiagonal",
     "spd-nearly-singular",
+    "xscale-D*spd*D-2^+-480", "xscale-global-near-overflow-or-underflow", "xscale-positive-diagonal",
     "FAIL:non-positive-leading-entry", "FAIL:integer-L0L0t-last-diagonal-lowered", "FAIL:integer-L0L0t-diagonal-k-lowered",
     "FAIL:zero-matrix"};
 
 static unsigned ncls(int fam) { return fam == FAM_PLU ? G_NCLS : fam == FAM_LDL ? S_NCLS : C_NCLS; }
 static char const *cls_name(int fam, unsigned c) { return fam == FAM_PLU ? g_name[c] : fam == FAM_LDL ? s_name[c] : c_name[c]; }
+/* extreme-scaling classes: entries stay finite and normal-or-zero, but multipliers, products and solution components
+   may underflow (and products may overflow) inside the library */
+static int is_xscale(int fam, unsigned c)
+{
+    return fam == FAM_PLU ? (c >= G_X_ROW && c <= G_X_EXACT) : fam == FAM_LDL ? (c >= S_X_SPD && c <= S_X_DIAG) : (c >= C_X_SPD && c <= C_X_DIAG);
+}
 
 /* ------------------------------------------------------------------ guarded / exact-size buffers */
 static uint64_t const GPAT = 0x7FF4DEADBEEF0000ull; /* signalling-NaN payload + cell index */
@@ -325,6 +365,134 @@ static void sym_scale(vf_rng *r, unsigned n, int kmax, double *A)
 }
 static double mzero(vf_rng *r) { return vf_chance(r, 1, 3) ? -0.0 : 0.0; }
 
+/* ---- extreme scaling helpers.  Base matrices have |entry| in [2^-30, 2^12] or 0 (xs_clamp), the exponent sums stay within
+   +-960, so every scaled entry is finite and normal-or-zero; xs_sanitize is a belt-and-braces pass that never fires
+   (xs_wide_sym below decides itself which entries are exact zeros). */
+static void xs_clamp(double *A, size_t cnt)
+{
+    for (size_t i = 0; i < cnt; ++i)
+    {
+        if (A[i] != 0 && fabs(A[i]) < 0x1p-30) { A[i] = copysign(0x1p-30, A[i]); }
+    }
+}
+static void xs_sanitize(double *A, size_t cnt)
+{
+    for (size_t i = 0; i < cnt; ++i)
+    {
+        if (!isfinite(A[i])) { A[i] = copysign(DBL_MAX, A[i]); }
+        else if (A[i] != 0 && fabs(A[i]) < DBL_MIN) { A[i] = 0; }
+    }
+}
+static char const *const xs_mode_name[] = {"spread", "two-level", "graded", "outliers", "three-level"};
+/* exponents in [-lim, lim]: spread uniformly / two levels +-h / graded h..-h / a few outliers +-h among zeros / {-h,0,h} */
+static unsigned xs_exps(vf_rng *r, unsigned n, int lim, int *e)
+{
+    unsigned const mode = (unsigned)vf_below(r, 5);
+    int const h = (int)vf_range(r, lim / 2, lim);
+    switch (mode)
+    {
+    case 0:
+        for (unsigned i = 0; i < n; ++i) { e[i] = (int)vf_range(r, -lim, lim); }
+        break;
+    case 1:
+        for (unsigned i = 0; i < n; ++i) { e[i] = vf_chance(r, 1, 2) ? h : -h; }
+        break;
+    case 2:
+    {
+        int const dir = vf_chance(r, 1, 2) ? 1 : -1;
+        for (unsigned i = 0; i < n; ++i) { e[i] = dir * (n > 1 ? h - (int)((2L * h * (long)i) / (long)(n - 1)) : h); }
+        break;
+    }
+    case 3:
+    {
+        for (unsigned i = 0; i < n; ++i) { e[i] = 0; }
+        unsigned const k = 1 + (unsigned)vf_below(r, 2);
+        for (unsigned j = 0; j < k; ++j) { e[vf_below(r, n)] = vf_chance(r, 1, 2) ? h : -h; }
+        break;
+    }
+    default:
+        for (unsigned i = 0; i < n; ++i) { e[i] = (int)vf_range(r, -1, 1) * h; }
+        break;
+    }
+    return mode;
+}
+/* A := D1 A D2 with D1 = diag(2^er), D2 = diag(2^ec) (either may be NULL) */
+static void xs_apply(unsigned n, double *A, int const *er, int const *ec)
+{
+    for (unsigned i = 0; i < n; ++i)
+    {
+        for (unsigned j = 0; j < n; ++j) { A[(size_t)n * i + j] = ldexp(A[(size_t)n * i + j], (er ? er[i] : 0) + (ec ? ec[j] : 0)); }
+    }
+    xs_sanitize(A, (size_t)n * n);
+}
+/* A := 2^g A with g chosen so that the largest entry has exponent 1023-(0..2) (top) or the smallest non-zero entry has
+   exponent -1022+(0..2) (bottom): everything stays finite and normal, one doubling away from overflow / underflow */
+static void xs_global(vf_rng *r, unsigned n, double *A, char *note, size_t nlen)
+{
+    int emax = -100000, emin = 100000;
+    for (size_t i = 0; i < (size_t)n * n; ++i)
+    {
+        if (A[i] != 0)
+        {
+            int const e = ilogb(A[i]);
+            if (e > emax) { emax = e; }
+            if (e < emin) { emin = e; }
+        }
+    }
+    if (emax < emin) { return; }
+    int const top = vf_chance(r, 1, 2);
+    int const g = top ? 1023 - (int)vf_range(r, 0, 2) - emax : -1022 + (int)vf_range(r, 0, 2) - emin;
+    for (size_t i = 0; i < (size_t)n * n; ++i) { A[i] = ldexp(A[i], g); }
+    xs_sanitize(A, (size_t)n * n);
+    snprintf(note, nlen, "global scale 2^%d (%s)", g, top ? "largest entry next to DBL_MAX" : "smallest entry next to DBL_MIN");
+}
+/* sign * m * 2^k, a normal number anywhere in the double range, the range ends included */
+static double xs_pow(vf_rng *r)
+{
+    static int const edge[] = {-1022, -1021, 1022, 1023};
+    int const k = vf_chance(r, 1, 4) ? edge[vf_below(r, 4)] : (int)vf_range(r, -1022, 1023);
+    double const m = vf_chance(r, 1, 2) ? 1.0 : vf_uniform(r, 1.0, 1.984375);
+    return vf_sign(r) * ldexp(m, k);
+}
+/* A = D B D built directly, D = diag(2^e_i), B symmetric and strictly diagonally dominant: |b_ii| in [1,2), off-diagonals
+   b_ij = +-m 2^-g, m in [1/2,1), g >= g0 = 7 + ceil(log2 n) (a row's off-diagonals sum to < 2^-7), or exactly 0.  B is well
+   conditioned (positive definite unless indef) but its own multipliers are tiny.  g is either spread over g0..700 or
+   aimed so that a_ij lands within 2^60 of the bottom of the normal range; then the quotients a_rc/d_c resp. a_rc/l_cc and the
+   fill-in products underflow, partly or completely.  B itself is never formed (2^-g need not be representable); an entry
+   whose exponent e_i+e_j-g falls below the normal range is an exact 0 (symmetrically). */
+static void xs_wide_sym(vf_rng *r, unsigned n, int indef, int const *e, double *A)
+{
+    int g0 = 7;
+    while ((1u << (g0 - 7)) < n) { ++g0; }
+    for (unsigned i = 0; i < n; ++i)
+    {
+        A[(size_t)n * i + i] = (indef ? vf_sign(r) : 1.0) * ldexp(vf_uniform(r, 1.0, 2.0), 2 * e[i]);
+        for (unsigned j = 0; j < i; ++j)
+        {
+            unsigned const k = (unsigned)vf_below(r, 8);
+            int g = (int)vf_range(r, g0, 700);
+            if (k >= 4)
+            {
+                int const aim = e[i] + e[j] + 1022 - (int)vf_range(r, 0, 60);
+                if (aim >= g0) { g = aim; }
+            }
+            int const t = e[i] + e[j] - g;
+            A[(size_t)n * i + j] = (k == 0 || t < -1021) ? 0.0 : vf_sign(r) * ldexp(vf_uniform(r, 0.5, 1.0), t);
+        }
+    }
+    mirror_lower(n, A);
+    xs_sanitize(A, (size_t)n * n);
+}
+/* well conditioned (usually) dense base for the PLU xscale classes */
+static void xs_base_general(vf_rng *r, unsigned n, double *A)
+{
+    unsigned const b = (unsigned)vf_below(r, 4);
+    if (b == 0) { gen_smallint(r, n, A); }
+    else if (b == 1) { gen_lu_nopivot(r, n, A); }
+    else { gen_uniform(r, n, A); }
+    xs_clamp(A, (size_t)n * n);
+}
+
 /* general matrices for PLU; *aux = step/row information for the log */
 static int gen_general(unsigned cls, unsigned n, vf_rng *r, double *A, char *note, size_t nlen)
 {
@@ -430,6 +598,145 @@ static int gen_general(unsigned cls, unsigned n, vf_rng *r, double *A, char *not
         gen_uniform(r, n, A);
         mirror_lower(n, A);
         break;
+    case G_X_ROW:
+    case G_X_COL:
+    case G_X_BOTH:
+    {
+        int er[NMAX], ec[NMAX];
+        unsigned mr = 0, mc = 0;
+        xs_base_general(r, n, A);
+        if (cls != G_X_COL) { mr = xs_exps(r, n, cls == G_X_BOTH ? 480 : 960, er); }
+        if (cls != G_X_ROW) { mc = xs_exps(r, n, cls == G_X_BOTH ? 480 : 960, ec); }
+        xs_apply(n, A, cls != G_X_COL ? er : NULL, cls != G_X_ROW ? ec : NULL);
+        snprintf(note, nlen, "row exponents %s, column exponents %s", cls != G_X_COL ? xs_mode_name[mr] : "none", cls != G_X_ROW ? xs_mode_name[mc] : "none");
+        break;
+    }
+    case G_X_GLOBAL:
+        xs_base_general(r, n, A);
+        if (vf_chance(r, 1, 2))
+        {
+            for (unsigned i = 0; i < n; ++i)
+            {
+                int const k = (int)vf_range(r, -20, 20);
+                for (unsigned j = 0; j < n; ++j) { A[(size_t)n * i + j] = ldexp(A[(size_t)n * i + j], k); }
+            }
+        }
+        xs_global(r, n, A, note, nlen);
+        break;
+    case G_X_BLOCK:
+    {
+        /* k rows int * 2^E, upper trapezoidal with non-zero diagonal, over rows [ int * 2^-E' | T ], E + E' >= 1080: the pivots
+           of the first k steps are the diagonal of the top block, every multiplier of a bottom row is a NON-ZERO entry divided
+           by a pivot and underflows to exactly 0 (<= 3*2^-1080 < eta/2), the multipliers inside the top block are 0/pivot;
+           so all updates subtract u*0 and T is factored untouched.  T permuted-triangular / scaled permutation: every later
+           pivot is the single non-zero left in its column, all multipliers are 0 - success by construction. */
+        int const E = (int)vf_range(r, 540, 1000), E2 = (int)vf_range(r, 1080 - E, 1000);
+        unsigned const k = n > 1 ? 1 + (unsigned)vf_below(r, n - 1) : 1, m = n - (n > 1 ? k : 0);
+        unsigned const tk = (unsigned)vf_below(r, 4);
+        memset(A, 0, (size_t)n * n * sizeof(double));
+        if (n == 1)
+        {
+            A[0] = vf_sign(r) * ldexp((double)vf_range(r, 1, 3), vf_chance(r, 1, 2) ? E : -E);
+            expect = EXP_SUCCESS;
+            snprintf(note, nlen, "1x1");
+            break;
+        }
+        double *T = (double *)calloc((size_t)m * m, sizeof(double));
+        if (tk == 0) { gen_uniform(r, m, T); xs_clamp(T, (size_t)m * m); }
+        else if (tk == 1) { gen_smallint(r, m, T); }
+        else if (tk == 2)
+        {
+            for (unsigned i = 0; i < m; ++i)
+            {
+                for (unsigned j = i; j < m; ++j) { T[(size_t)m * i + j] = j == i ? vf_sign(r) * vf_uniform(r, 0.5, 2.0) : vf_uniform(r, -2.0, 2.0); }
+            }
+            expect = EXP_SUCCESS;
+        }
+        else
+        {
+            unsigned q[NMAX];
+            for (unsigned i = 0; i < m; ++i) { q[i] = i; }
+            for (unsigned i = m; i > 1; --i)
+            {
+                unsigned const j = (unsigned)vf_below(r, i), t = q[i - 1];
+                q[i - 1] = q[j];
+                q[j] = t;
+            }
+            for (unsigned i = 0; i < m; ++i) { T[(size_t)m * i + q[i]] = vf_sign(r) * pow2i((int)vf_range(r, -30, 30)); }
+            expect = EXP_SUCCESS;
+        }
+        double *B = (double *)calloc((size_t)n * n, sizeof(double));
+        for (unsigned i = 0; i < k; ++i)
+        {
+            for (unsigned j = i; j < n; ++j)
+            {
+                int v = (int)vf_range(r, -3, 3);
+                if (j == i && v == 0) { v = vf_chance(r, 1, 2) ? 2 : -1; }
+                B[(size_t)n * i + j] = ldexp((double)v, E);
+            }
+        }
+        for (unsigned i = k; i < n; ++i)
+        {
+            for (unsigned j = 0; j < k; ++j)
+            {
+                int const v = (int)vf_range(r, 1, 3);
+                B[(size_t)n * i + j] = vf_sign(r) * ldexp((double)v, -E2);
+            }
+            for (unsigned j = k; j < n; ++j) { B[(size_t)n * i + j] = T[(size_t)m * (i - k) + (j - k)]; }
+        }
+        /* rows in random order (the exchanges are then non-trivial) */
+        unsigned q[NMAX];
+        for (unsigned i = 0; i < n; ++i) { q[i] = i; }
+        if (vf_chance(r, 2, 3))
+        {
+            for (unsigned i = n; i > 1; --i)
+            {
+                unsigned const j = (unsigned)vf_below(r, i), t = q[i - 1];
+                q[i - 1] = q[j];
+                q[j] = t;
+            }
+        }
+        for (unsigned i = 0; i < n; ++i) { memcpy(A + (size_t)n * i, B + (size_t)n * q[i], n * sizeof(double)); }
+        snprintf(note, nlen, "%u rows *2^%d over tiny columns *2^-%d, trailing block kind %u", k, E, E2, tk);
+        free(B);
+        free(T);
+        break;
+    }
+    case G_X_EXACT:
+    {
+        unsigned const kind = (unsigned)vf_below(r, 3);
+        memset(A, 0, (size_t)n * n * sizeof(double));
+        if (kind == 0) /* permutation matrix with entries anywhere in the normal range */
+        {
+            unsigned q[NMAX];
+            for (unsigned i = 0; i < n; ++i) { q[i] = i; }
+            for (unsigned i = n; i > 1; --i)
+            {
+                unsigned const j = (unsigned)vf_below(r, i), t = q[i - 1];
+                q[i - 1] = q[j];
+                q[j] = t;
+            }
+            for (unsigned i = 0; i < n; ++i) { A[(size_t)n * i + q[i]] = xs_pow(r); }
+        }
+        else if (kind == 1)
+        {
+            for (unsigned i = 0; i < n; ++i) { A[(size_t)n * i + i] = xs_pow(r); }
+        }
+        else /* upper triangular, rows scaled: no elimination happens (every multiplier is 0/pivot) */
+        {
+            int er[NMAX];
+            xs_exps(r, n, 960, er);
+            for (unsigned i = 0; i < n; ++i)
+            {
+                for (unsigned j = i; j < n; ++j) { A[(size_t)n * i + j] = j == i ? vf_sign(r) * vf_uniform(r, 0.5, 2.0) : vf_uniform(r, -2.0, 2.0); }
+            }
+            xs_clamp(A, (size_t)n * n);
+            xs_apply(n, A, er, NULL);
+        }
+        snprintf(note, nlen, "%s", kind == 0 ? "permutation" : kind == 1 ? "diagonal" : "upper triangular, rows scaled");
+        expect = EXP_SUCCESS; /* every pivot is a normal number (>= DBL_MIN) and the only non-zero candidate of its column */
+        break;
+    }
     case G_F_ZEROCOL:
     case G_F_ZEROROW:
     case G_F_DUPROW:
@@ -547,6 +854,35 @@ static int gen_sym(unsigned cls, unsigned n, vf_rng *r, double *A, char *note, s
             if (i + 1 < n) { A[(size_t)n * (i + 1) + i] = A[(size_t)n * i + i + 1] = vf_uniform(r, -1.0, 1.0); }
         }
         break;
+    case S_X_SPD:
+    case S_X_INDEF:
+    {
+        int e[NMAX];
+        unsigned const b = (unsigned)vf_below(r, 3);
+        unsigned const m = xs_exps(r, n, 480, e);
+        if (b == 2) { xs_wide_sym(r, n, cls == S_X_INDEF, e, A); }
+        else
+        {
+            if (cls == S_X_INDEF) { gen_uniform(r, n, A); mirror_lower(n, A); xs_clamp(A, (size_t)n * n); }
+            else if (b == 0) { gen_int_ldlt(r, n, 0, NULL, NULL, A); }
+            else { gen_btb(r, n, vf_logu(r, -2.0, 0.0), 0, A); xs_clamp(A, (size_t)n * n); }
+            xs_apply(n, A, e, e);
+        }
+        snprintf(note, nlen, "D B D, B %s, exponents %s", b == 2 ? "diagonally dominant with off-diagonals down to the bottom of the normal range" : "dense", xs_mode_name[m]);
+        break;
+    }
+    case S_X_GLOBAL:
+        if (vf_chance(r, 1, 2)) { gen_btb(r, n, vf_logu(r, -2.0, 0.0), 0, A); }
+        else { gen_uniform(r, n, A); mirror_lower(n, A); }
+        xs_clamp(A, (size_t)n * n);
+        if (vf_chance(r, 1, 2)) { sym_scale(r, n, 10, A); }
+        xs_global(r, n, A, note, nlen);
+        break;
+    case S_X_DIAG:
+        memset(A, 0, (size_t)n * n * sizeof(double));
+        for (unsigned i = 0; i < n; ++i) { A[(size_t)n * i + i] = xs_pow(r); }
+        expect = EXP_SUCCESS; /* every pivot is a normal number; nothing is computed */
+        break;
     case S_F_ZEROMAT:
         for (size_t i = 0; i < (size_t)n * n; ++i) { A[i] = mzero(r); }
         expect = EXP_FAIL;
@@ -603,6 +939,32 @@ static int gen_spd(unsigned cls, unsigned n, vf_rng *r, double *A, char *note, s
         break;
     }
     case C_NEARSING: gen_btb(r, n, vf_logu(r, -13.0, -8.0), 1, A); break;
+    case C_X_SPD:
+    {
+        int e[NMAX];
+        unsigned const b = (unsigned)vf_below(r, 3);
+        unsigned const m = xs_exps(r, n, 480, e);
+        if (b == 2) { xs_wide_sym(r, n, 0, e, A); }
+        else
+        {
+            if (b == 0) { gen_int_ldlt(r, n, 0, NULL, NULL, A); }
+            else { gen_btb(r, n, vf_logu(r, -2.0, 0.0), 0, A); xs_clamp(A, (size_t)n * n); }
+            xs_apply(n, A, e, e);
+        }
+        snprintf(note, nlen, "D B D, B %s, exponents %s", b == 2 ? "diagonally dominant with off-diagonals down to the bottom of the normal range" : b == 0 ? "integer L0L0t" : "BtB+dI", xs_mode_name[m]);
+        break;
+    }
+    case C_X_GLOBAL:
+        gen_btb(r, n, vf_logu(r, -2.0, 0.0), 0, A);
+        xs_clamp(A, (size_t)n * n);
+        if (vf_chance(r, 1, 2)) { sym_scale(r, n, 10, A); }
+        xs_global(r, n, A, note, nlen);
+        break;
+    case C_X_DIAG:
+        memset(A, 0, (size_t)n * n * sizeof(double));
+        for (unsigned i = 0; i < n; ++i) { A[(size_t)n * i + i] = fabs(xs_pow(r)); }
+        expect = EXP_SUCCESS; /* every pivot is a positive normal number */
+        break;
     case C_F_LEAD:
     {
         gen_btb(r, n, 1.0, 0, A);
@@ -650,6 +1012,10 @@ typedef struct
     int sign;
     unsigned rowmap[NMAX]; /* factored row r is row rowmap[r] of A0 */
     ld_t *W;               /* n*n bound matrix |L||U| / |L||D||L^T| / |L||L^T| in factored row order */
+    ld_t *E;               /* n*n underflow term of the reconstruction bound (header comment), same order */
+    ld_t e1[NMAX], e2[NMAX]; /* underflow terms of the lower / upper sweep, per row */
+    int xscale;            /* extreme-scaling class: overflow is counted and skipped */
+    int uflow;             /* some product the library formed from the stored factors is non-zero and below DBL_MIN */
     uint64_t sig;          /* pivoting-pattern signature */
 } fact_t;
 
@@ -660,9 +1026,10 @@ static void fact_free(fact_t *f)
     free(f->p);
     free(f->pref);
     free(f->W);
+    free(f->E);
     f->F = f->Fref = NULL;
     f->p = f->pref = NULL;
-    f->W = NULL;
+    f->W = f->E = NULL;
 }
 
 /* plain LDL^T (no pivoting) on matrices that are not positive definite - random indefinite, Hilbert beyond n ~ 12, rank
@@ -670,6 +1037,26 @@ static void fact_free(fact_t *f)
 static int ldl_wild(fact_t const *f)
 {
     return f->fam == FAM_LDL && (f->cls == S_INDEF || f->cls == S_SCALED || f->cls == S_NEARDEP || f->cls == S_TRIDIAG || f->cls == S_HILBERT);
+}
+/* a non-finite factor / solution is legitimate (overflow): count it, skip the numeric clause.  Returns 0 if it must be flagged. */
+static int nonfinite_skip(fact_t const *f, char const *what)
+{
+    char nm[56];
+    if (f->xscale)
+    {
+        snprintf(nm, sizeof(nm), "%s-xscale-overflow-skipped", fam_name[f->fam]);
+        vf_count_dyn(nm, 1);
+        snprintf(nm, sizeof(nm), "%s-xscale-skipped-nonfinite-%s", fam_name[f->fam], what);
+        vf_count_dyn(nm, 1);
+        return 1;
+    }
+    if (ldl_wild(f))
+    {
+        snprintf(nm, sizeof(nm), "ldl-skipped-nonfinite-%s", what);
+        vf_count_dyn(nm, 1);
+        return 1;
+    }
+    return 0;
 }
 
 static void viol2(char const *routine, char const *clause, char const *fmt, ...) __attribute__((format(printf, 3, 4)));
@@ -692,24 +1079,37 @@ static double reconstruct(fact_t *f, unsigned *wr, unsigned *wc, double *wres, d
     unsigned const gk = f->fam == FAM_LLT ? n + 1 : n;
     ld_t const g = gam(gk);
     double worst = 0;
+    ld_t dsum[NMAX + 1]; /* LDL: sum_{i<c} (|d_i| + 1) */
     *wr = *wc = 0;
     *wres = *wbound = 0;
+    dsum[0] = 0;
+    for (unsigned i = 0; i < n; ++i) { dsum[i + 1] = dsum[i] + fabsl((ld_t)F[(size_t)n * i + i]) + 1; }
+    /* underflow terms of the sweeps (header comment) */
+    for (unsigned r = 0; r < n; ++r)
+    {
+        ld_t const piv = fabsl((ld_t)F[(size_t)n * r + r]);
+        f->e1[r] = ETA_Q * (f->fam == FAM_LLT ? (ld_t)r + piv : (ld_t)r);
+        f->e2[r] = ETA_Q * (f->fam == FAM_LDL ? piv * (ld_t)(n - r) : (ld_t)(n - 1 - r) + piv);
+    }
     for (unsigned r = 0; r < n; ++r)
     {
         unsigned const cend = f->fam == FAM_PLU ? n : r + 1;
         for (unsigned c = 0; c < cend; ++c)
         {
             q_t s = 0;
-            ld_t w = 0;
+            ld_t w = 0, e;
             if (f->fam == FAM_PLU)
             {
                 unsigned const kmax = r < c ? r : c;
                 for (unsigned k = 0; k <= kmax; ++k)
                 {
                     double const l = k == r ? 1.0 : F[(size_t)n * r + k], u = F[(size_t)n * k + c];
+                    ld_t const a = fabsl((ld_t)l * u);
                     s += (q_t)l * u;
-                    w += fabsl((ld_t)l * u);
+                    w += a;
+                    if (k < kmax && a != 0 && a < (ld_t)DBL_MIN) { f->uflow = 1; }
                 }
+                e = ETA_Q * ((ld_t)kmax + (r > c ? fabsl((ld_t)F[(size_t)n * c + c]) : 0));
             }
             else if (f->fam == FAM_LDL)
             {
@@ -719,32 +1119,57 @@ static double reconstruct(fact_t *f, unsigned *wr, unsigned *wc, double *wres, d
                     double const d = F[(size_t)n * k + k];
                     s += (q_t)lr * d * lc;
                     w += fabsl((ld_t)lr * d * lc);
+                    if (k < c)
+                    {
+                        ld_t const a = fabsl((ld_t)lr * lc), b = a * fabsl((ld_t)d);
+                        if ((a != 0 && a < (ld_t)DBL_MIN) || (b != 0 && b < (ld_t)DBL_MIN)) { f->uflow = 1; }
+                    }
                 }
+                e = ETA_Q * (dsum[c] + (r > c ? fabsl((ld_t)F[(size_t)n * c + c]) : 0));
             }
             else
             {
                 for (unsigned k = 0; k <= c; ++k)
                 {
                     double const lr = F[(size_t)n * r + k], lc = F[(size_t)n * c + k];
+                    ld_t const a = fabsl((ld_t)lr * lc);
                     s += (q_t)lr * lc;
-                    w += fabsl((ld_t)lr * lc);
+                    w += a;
+                    if (k < c && a != 0 && a < (ld_t)DBL_MIN) { f->uflow = 1; }
                 }
+                e = ETA_Q * ((ld_t)c + (r > c ? fabsl((ld_t)F[(size_t)n * c + c]) : 0));
             }
             f->W[(size_t)n * r + c] = w;
-            if (f->fam != FAM_PLU) { f->W[(size_t)n * c + r] = w; }
+            f->E[(size_t)n * r + c] = e;
+            if (f->fam != FAM_PLU)
+            {
+                f->W[(size_t)n * c + r] = w;
+                f->E[(size_t)n * c + r] = e;
+            }
             q_t const res = (q_t)A0[(size_t)n * f->rowmap[r] + c] - s;
-            double const ratio = ratio_of(res, g * w);
+            double const ratio = ratio_of(res, g * w + e);
             if (ratio > worst || !(ratio == ratio))
             {
                 worst = ratio;
                 *wr = r;
                 *wc = c;
                 *wres = (double)res;
-                *wbound = (double)(CSAFE * g * w);
+                *wbound = (double)(CSAFE * (g * w + e));
             }
         }
     }
     return worst;
+}
+
+/* underflow term UF_r of the solve / inverse-column residual bound for factored row r and solution x (header comment) */
+static ld_t uf_row(fact_t const *f, unsigned r, double const *x)
+{
+    unsigned const n = f->n;
+    ld_t s = f->e1[r];
+    for (unsigned c = 0; c < n; ++c) { s += f->E[(size_t)n * r + c] * fabsl((ld_t)x[c]); }
+    for (unsigned k = 0; k < r; ++k) { s += fabsl((ld_t)f->F[(size_t)n * r + k]) * f->e2[k]; }
+    s += (f->fam == FAM_LLT ? fabsl((ld_t)f->F[(size_t)n * r + r]) : 1) * f->e2[r];
+    return s;
 }
 
 /* |b - A0 x| against gamma_k * (W |x|) row by row (factored row order) */
@@ -766,13 +1191,14 @@ static double solve_ratio(fact_t const *f, double const *b, double const *x, uns
             w += f->W[(size_t)n * r + c] * fabsl((ld_t)x[c]);
         }
         q_t const res = (q_t)b[o] - s;
-        double const ratio = ratio_of(res, g * w);
+        ld_t const bound = g * w + uf_row(f, r, x);
+        double const ratio = ratio_of(res, bound);
         if (ratio > worst || !(ratio == ratio))
         {
             worst = ratio;
             *wrow = o;
             *wres = (double)res;
-            *wbound = (double)(CSAFE * g * w);
+            *wbound = (double)(CSAFE * bound);
         }
     }
     return worst;
@@ -788,7 +1214,8 @@ static double tri_ratio(int kind, unsigned n, double const *F, double const *rhs
     for (unsigned r = 0; r < n; ++r)
     {
         q_t s = 0;
-        ld_t w = 0;
+        ld_t w = 0, e;
+        ld_t const piv = fabsl((ld_t)F[(size_t)n * r + r]);
         switch (kind)
         {
         case TK_UNIT_LOWER:
@@ -799,6 +1226,7 @@ static double tri_ratio(int kind, unsigned n, double const *F, double const *rhs
             }
             s += sol[r];
             w += fabsl((ld_t)sol[r]);
+            e = ETA_Q * (ld_t)r;
             break;
         case TK_LOWER:
             for (unsigned c = 0; c <= r; ++c)
@@ -806,6 +1234,7 @@ static double tri_ratio(int kind, unsigned n, double const *F, double const *rhs
                 s += (q_t)F[(size_t)n * r + c] * sol[c];
                 w += fabsl((ld_t)F[(size_t)n * r + c] * sol[c]);
             }
+            e = ETA_Q * ((ld_t)r + piv);
             break;
         case TK_UPPER:
             for (unsigned c = r; c < n; ++c)
@@ -813,6 +1242,7 @@ static double tri_ratio(int kind, unsigned n, double const *F, double const *rhs
                 s += (q_t)F[(size_t)n * r + c] * sol[c];
                 w += fabsl((ld_t)F[(size_t)n * r + c] * sol[c]);
             }
+            e = ETA_Q * ((ld_t)(n - 1 - r) + piv);
             break;
         case TK_LOWER_T:
             for (unsigned c = r; c < n; ++c)
@@ -820,6 +1250,7 @@ static double tri_ratio(int kind, unsigned n, double const *F, double const *rhs
                 s += (q_t)F[(size_t)n * c + r] * sol[c];
                 w += fabsl((ld_t)F[(size_t)n * c + r] * sol[c]);
             }
+            e = ETA_Q * ((ld_t)(n - 1 - r) + piv);
             break;
         default: /* TK_DLT: row r of D L^T */
             s = sol[r];
@@ -830,10 +1261,11 @@ static double tri_ratio(int kind, unsigned n, double const *F, double const *rhs
                 w += fabsl((ld_t)F[(size_t)n * c + r] * sol[c]);
             }
             s *= F[(size_t)n * r + r];
-            w *= fabsl((ld_t)F[(size_t)n * r + r]);
+            w *= piv;
+            e = ETA_Q * piv * (ld_t)(n - r);
             break;
         }
-        double const ratio = ratio_of((q_t)rhs[r] - s, g * w);
+        double const ratio = ratio_of((q_t)rhs[r] - s, g * w + e);
         if (ratio > worst || !(ratio == ratio))
         {
             worst = ratio;
@@ -853,6 +1285,9 @@ static void distinct_cell(fact_t const *f)
     vf_distinct(h);
 }
 
+static void cnt(char const *fam, char const *what);
+static void mx(char const *fam, char const *what, double v);
+
 /* ------------------------------------------------------------------ factor + shape + reconstruction */
 static void factor(fact_t *f, int fam, unsigned cls, unsigned n, int expect, double const *A0)
 {
@@ -864,6 +1299,7 @@ static void factor(fact_t *f, int fam, unsigned cls, unsigned n, int expect, dou
     f->expect = expect;
     f->A0 = A0;
     f->cname = cls_name(fam, cls);
+    f->xscale = is_xscale(fam, cls);
     f->sign = 0;
     snprintf(rname, sizeof(rname), "a_real_%s", fam_name[fam]);
     for (unsigned i = 0; i < n; ++i) { f->rowmap[i] = i; }
@@ -926,6 +1362,9 @@ static void factor(fact_t *f, int fam, unsigned cls, unsigned n, int expect, dou
         if (fam == FAM_PLU) { VF_COUNT("plu-failure-reported"); }
         else if (fam == FAM_LDL) { VF_COUNT("ldl-failure-reported"); }
         else { VF_COUNT("llt-failure-reported"); }
+        /* a regular but extremely scaled matrix may legitimately lose a pivot to underflow: never required to succeed
+           unless exact by construction (EXP_SUCCESS above) */
+        if (f->xscale) { cnt(fam_name[fam], "-xscale-failure-reported"); }
         f->sig = 0xFA11;
         distinct_cell(f);
         gd_free(&A);
@@ -937,6 +1376,7 @@ static void factor(fact_t *f, int fam, unsigned cls, unsigned n, int expect, dou
     f->F = xd_copy(A.v, (size_t)n * n);
     f->Fref = xd_copy(A.v, (size_t)n * n);
     f->W = (ld_t *)calloc((size_t)n * n, sizeof(ld_t));
+    f->E = (ld_t *)calloc((size_t)n * n, sizeof(ld_t));
     gd_free(&A);
     double const *F = f->F;
 
@@ -1011,11 +1451,7 @@ static void factor(fact_t *f, int fam, unsigned cls, unsigned n, int expect, dou
     {
         /* plain LDL^T on a random indefinite matrix may legitimately overflow after a tiny pivot; everywhere else
            (|l| <= 1 under partial pivoting, l_rc^2 <= a_rr for SPD, exact integer data) a non-finite factor is wrong */
-        if (ldl_wild(f))
-        {
-            VF_COUNT("ldl-skipped-nonfinite-factor");
-            return;
-        }
+        if (nonfinite_skip(f, "factor")) { return; }
         viol2(rname, "non-finite-factor", "%s n=%u class=%s: success reported but the factor storage holds inf/nan", rname, n, f->cname);
         return;
     }
@@ -1103,10 +1539,26 @@ static void factor(fact_t *f, int fam, unsigned cls, unsigned n, int expect, dou
         VF_COUNT("llt-reconstruction-bound");
         VF_MAX("llt-reconstruction-ratio", ratio);
     }
+    if (f->xscale)
+    {
+        cnt(fam_name[fam], "-xscale-reconstruction-bound");
+        mx(fam_name[fam], "-xscale-reconstruction-ratio", ratio);
+        if (f->uflow) { cnt(fam_name[fam], "-xscale-product-underflow-observed"); }
+        if (fam == FAM_PLU && cls != G_X_EXACT)
+        {
+            /* witness that the multipliers themselves reached the underflow range (0 included: on the dense bases a stored
+               zero multiplier is a quotient that underflowed completely) */
+            for (unsigned i = 0; i < n * n; ++i)
+            {
+                if (i % n < i / n && fabs(F[i]) < DBL_MIN) { VF_COUNT("plu-xscale-multiplier-below-DBL_MIN"); break; }
+            }
+        }
+        if (fam == FAM_PLU && cls == G_X_BLOCK && n > 1) { VF_COUNT("plu-xscale-multipliers-flush-to-zero-by-construction"); }
+    }
     if (!(ratio <= CSAFE))
     {
         viol2(rname, "reconstruction-outside-componentwise-bound",
-              "%s n=%u class=%s: entry (%u,%u) of %s: residual %.6e, bound c*gamma*W = %.6e (ratio to c=1 bound %.4g)", rname, n, f->cname, wr, wc,
+              "%s n=%u class=%s: entry (%u,%u) of %s: residual %.6e, bound c*(gamma*W + underflow term) = %.6e (ratio to c=1 bound %.4g)", rname, n, f->cname, wr, wc,
               fam == FAM_PLU ? "PA-LU" : fam == FAM_LDL ? "A-LDL^T" : "A-LL^T", wres, wbound, ratio);
     }
     f->judged = 1;
@@ -1191,6 +1643,16 @@ static void check_solves(fact_t *f, vf_rng *r, int rhs_kind)
     unsigned const ksolve = fam == FAM_PLU ? 3 * n : 3 * n + 1;
 
     for (unsigned i = 0; i < n; ++i) { b[i] = rhs_kind ? (double)vf_range(r, -9, 9) : vf_uniform(r, -1.0, 1.0); }
+    if (f->xscale)
+    {
+        /* extreme classes: the right-hand side is badly scaled as well (half of the time) */
+        unsigned const m = (unsigned)vf_below(r, 6);
+        int const h = (int)vf_range(r, -1000, 1000);
+        for (unsigned i = 0; i < n && m >= 3; ++i)
+        {
+            b[i] = ldexp(b[i], m == 3 ? h : m == 4 ? (int)vf_range(r, -1000, 1000) : (int)vf_range(r, -300, 300));
+        }
+    }
     log_matrix("b", b, 1, n);
     double *bx = xd_copy(b, n);
 
@@ -1228,12 +1690,13 @@ static void check_solves(fact_t *f, vf_rng *r, int rhs_kind)
     gd_guard(&y, rn, "y");
     inputs_intact(f, rn);
     int finite = all_finite(y.v, n);
-    if (!finite && ldl_wild(f)) { cnt(fn, "-skipped-nonfinite-solution"); }
+    if (!finite && nonfinite_skip(f, "solution")) {}
     else
     {
         double ratio = tri_ratio(tk_lower[fam], n, f->F, rhs, y.v, &wrow);
         cnt(fn, "_lower-residual-bound");
         mx(fn, "_lower-residual-ratio", ratio);
+        if (f->xscale) { mx(fn, "-xscale-sweep-residual-ratio", ratio); }
         if (!(ratio <= CSAFE))
         {
             viol2(rn, "residual-outside-bound", "%s n=%u class=%s: row %u of b - L y is %.4g times the gamma_{n+1}|L||y| bound (c=%g allowed)", rn, n, f->cname, wrow, ratio, CSAFE);
@@ -1248,12 +1711,13 @@ static void check_solves(fact_t *f, vf_rng *r, int rhs_kind)
         call_upper(fam, n, f->F, y.v, 0);
         gd_guard(&y, rn, "x");
         inputs_intact(f, rn);
-        if (!all_finite(y.v, n) && ldl_wild(f)) { cnt(fn, "-skipped-nonfinite-solution"); }
+        if (!all_finite(y.v, n) && nonfinite_skip(f, "solution")) {}
         else
         {
             double ratio = tri_ratio(tk_upper[fam], n, f->F, mid, y.v, &wrow);
             cnt(fn, "_upper-residual-bound");
             mx(fn, "_upper-residual-ratio", ratio);
+            if (f->xscale) { mx(fn, "-xscale-sweep-residual-ratio", ratio); }
             if (!(ratio <= CSAFE))
             {
                 viol2(rn, "residual-outside-bound", "%s n=%u class=%s: row %u of y - U x is %.4g times the gamma_{n+1}|U||x| bound (c=%g allowed)", rn, n, f->cname, wrow, ratio, CSAFE);
@@ -1279,12 +1743,17 @@ static void check_solves(fact_t *f, vf_rng *r, int rhs_kind)
     }
     gd_guard(&x, rn, "x");
     inputs_intact(f, rn);
-    if (!all_finite(x.v, n) && ldl_wild(f)) { cnt(fn, "-skipped-nonfinite-solution"); }
+    if (!all_finite(x.v, n) && nonfinite_skip(f, "solution")) {}
     else
     {
         double ratio = solve_ratio(f, b, x.v, ksolve, &wrow, &wres, &wbound);
         cnt(fn, "_solve-residual-bound");
         mx(fn, "_solve-residual-ratio", ratio);
+        if (f->xscale)
+        {
+            cnt(fn, "-xscale-solve-residual-bound");
+            mx(fn, "-xscale-solve-residual-ratio", ratio);
+        }
         if (!(ratio <= CSAFE))
         {
             viol2(rn, "residual-outside-bound", "%s n=%u class=%s: row %u of b - A x = %.6e, bound c*gamma_3n*(W|x|) = %.6e (ratio to c=1 bound %.4g)", rn, n, f->cname, wrow,
@@ -1328,11 +1797,12 @@ static void check_solves(fact_t *f, vf_rng *r, int rhs_kind)
             for (unsigned i = 0; i < n; ++i) { colv[i] = M.v[(size_t)n * i + j]; }
             if (!all_finite(colv, n))
             {
-                if (ldl_wild(f)) { cnt(fn, "-skipped-nonfinite-solution"); break; }
+                if (nonfinite_skip(f, "solution")) { break; }
             }
             double ratio = tri_ratio(pass ? tk_upper[fam] : tk_lower[fam], n, f->F, pass ? mid : rhs, colv, &wrow);
             cnt(fn, pass ? "_upper_-residual-bound" : "_lower_-residual-bound");
             mx(fn, pass ? "_upper_-residual-ratio" : "_lower_-residual-ratio", ratio);
+            if (f->xscale) { mx(fn, "-xscale-sweep-residual-ratio", ratio); }
             if (!(ratio <= CSAFE))
             {
                 viol2(rn, "residual-outside-bound", "%s n=%u class=%s column %u: row %u residual is %.4g times the gamma_{n+1}|T||x| bound (c=%g allowed)", rn, n, f->cname, j, wrow, ratio,
@@ -1368,12 +1838,17 @@ static void check_inverse(fact_t *f)
     inputs_intact(f, rn);
     int fin1 = all_finite(X.v, (size_t)n * n);
     double ratio1 = 0;
-    if (!fin1 && ldl_wild(f)) { cnt(fn, "-skipped-nonfinite-solution"); }
+    if (!fin1 && nonfinite_skip(f, "solution")) {}
     else
     {
         ratio1 = inverse_ratio(f, X.v, k, &wc, &wr, &wres, &wbound);
         cnt(fn, "_inv-column-residual-bound");
         mx(fn, "_inv-column-residual-ratio", ratio1);
+        if (f->xscale)
+        {
+            cnt(fn, "-xscale-inv-column-residual-bound");
+            mx(fn, "-xscale-inv-column-residual-ratio", ratio1);
+        }
         if (!(ratio1 <= CSAFE))
         {
             viol2(rn, "column-residual-outside-bound", "%s n=%u class=%s: column %u, row %u of e_j - A X[:,j] = %.6e, bound %.6e (ratio to c=1 bound %.4g)", rn, n, f->cname, wc, wr,
@@ -1390,13 +1865,14 @@ static void check_inverse(fact_t *f)
     gd_guard(&X2, rn, "I");
     inputs_intact(f, rn);
     int fin2 = all_finite(X2.v, (size_t)n * n);
-    if (!fin2 && ldl_wild(f)) { cnt(fn, "-skipped-nonfinite-solution"); }
+    if (!fin2 && nonfinite_skip(f, "solution")) {}
     else
     {
         int same = fin1 && memcmp(X.v, X2.v, (size_t)n * n * sizeof(double)) == 0;
         double ratio2 = same ? ratio1 : inverse_ratio(f, X2.v, k, &wc, &wr, &wres, &wbound);
         cnt(fn, "_inv_-column-residual-bound");
         mx(fn, "_inv_-column-residual-ratio", ratio2);
+        if (f->xscale) { mx(fn, "-xscale-inv-column-residual-ratio", ratio2); }
         if (!(ratio2 <= CSAFE))
         {
             viol2(rn, "column-residual-outside-bound", "%s n=%u class=%s: column %u, row %u of e_j - A X[:,j] = %.6e, bound %.6e (ratio to c=1 bound %.4g)", rn, n, f->cname, wc, wr,
@@ -1414,6 +1890,12 @@ static void check_inverse(fact_t *f)
                 unsigned bc = 0, br = 0;
                 for (unsigned j = 0; j < n; ++j)
                 {
+                    double ca[NMAX], cb[NMAX];
+                    for (unsigned c = 0; c < n; ++c)
+                    {
+                        ca[c] = X.v[(size_t)n * c + j];
+                        cb[c] = X2.v[(size_t)n * c + j];
+                    }
                     for (unsigned rr = 0; rr < n; ++rr)
                     {
                         unsigned const o = f->rowmap[rr];
@@ -1421,11 +1903,12 @@ static void check_inverse(fact_t *f)
                         ld_t w = 0;
                         for (unsigned c = 0; c < n; ++c)
                         {
-                            double const a = X.v[(size_t)n * c + j], b2 = X2.v[(size_t)n * c + j];
+                            double const a = ca[c], b2 = cb[c];
                             s += (q_t)f->A0[(size_t)n * o + c] * ((q_t)a - b2);
                             w += f->W[(size_t)n * rr + c] * (fabsl((ld_t)a) + fabsl((ld_t)b2));
                         }
-                        double const ra = ratio_of(s, g * w);
+                        /* both residuals carry their own underflow term */
+                        double const ra = ratio_of(s, g * w + uf_row(f, rr, ca) + uf_row(f, rr, cb));
                         if (ra > worst || !(ra == ra)) { worst = ra; bc = j; br = o; }
                     }
                 }
